@@ -32,6 +32,9 @@ class Engine(Core, ExprMixin, CallMixin, StmtMixin):
         self.pure_cache = {}
         self.sum_cache = {}
         self.sum_sites = set()
+        self.sorted_from = {}
+        self._keep_alive = []
+        self.assuming_post = 0
 
     # read_field with the type invariant len >= 0
     def read_field(self, st, obj, attr, node=None, heap=None):
@@ -121,9 +124,12 @@ class Engine(Core, ExprMixin, CallMixin, StmtMixin):
             env2["result"] = self.coerce(rv, c.returns, fn)
         exit_st = self._exit_state(st)
         self.probe("exit-reachable", exit_st)
+        if c.result_is is not None:
+            rv_spec = self.eval_spec_val(c.result_is, env, exit_st, old_heap=self.fn_old_heap, old_env=env)
+            self.oblige("post", "result-is", self.val_eq(env2["result"], rv_spec), exit_st, fn, info={"clause": "result == " + c.result_is})
         for label, e in c.ensures_labeled:
             g = self.eval_spec(e, env2, exit_st, old_heap=self.fn_old_heap, old_env=env)
-            self.oblige("post", label, g, exit_st, fn, info={"clause": e})
+            self.oblige_split("post", label, g, exit_st, fn, info={"clause": e})
         # ---- frame
         frame = {}
         for key, fp in c.frame(self):
